@@ -8,6 +8,7 @@ package main
 
 import (
 	"fmt"
+	"sort"
 	"sync"
 	"time"
 
@@ -20,11 +21,96 @@ import (
 // so a node that moved to another scheduler stays in the old NodeShard as well
 const sigHysteresis = "C17-publish-hysteresis-keeps-stale-node"
 
+// second known finding: with the assignment cache empty or expired a worker item
+// recalculates everything but (re)publishes ONLY the requested scheduler's shard;
+// the other NodeShards keep the shards of an older calculation until their own keys
+// (or the next global sync) are processed
+const sigSingleShard = "C17-fallback-republishes-one-shard"
+
+// what the laws are asked about after one sync / step.  A signature is attached
+// to a case only when the mechanism of the finding is present IN THAT CASE:
+//
+//	both  = the published state with every shard whose staleness one of the two
+//	        mechanisms explains replaced by its current calculation: judged UNSIGNED,
+//	        so any other violation at the same step is still reported;
+//	onlyH = the published state with only the unprocessed-key shards replaced
+//	        (sig: hysteresis), emitted when both mechanisms occur;
+//	pub   = the published state itself, signed by the mechanism that is present.
+type stepJudge struct {
+	pub, onlyH, both []int64
+	staleH, staleU   []string // shards left stale by the damping threshold / by an unprocessed key
+	complete         bool     // every configured scheduler has a NodeShard
+}
+
 type pubOutcome struct {
-	ok        bool
-	pubs      [][]int64 // published NodeShards after every sync
-	explained []bool    // some shard was left stale at this sync and the threshold explains it
-	panic     string
+	ok    bool
+	pubs  [][]int64 // published NodeShards after every sync
+	judge []stepJudge
+	panic string
+}
+
+// judgeStep decides, shard by shard, which stale publications a known mechanism
+// explains: the shard still shows exactly what it showed before the step, differs
+// from the current calculation, and either the threshold rule says "no update"
+// (hysteresis) or — threshold notwithstanding — no worker item applied the current
+// calculation to it during the step (unprocessed: only possible in the op stream).
+func judgeStep(prev, pub, calc map[string][]string, processed map[string]bool) stepJudge {
+	j := stepJudge{pub: encResult(pub), complete: len(pub) == len(calc)}
+	both, onlyH := map[string][]string{}, map[string][]string{}
+	for s, l := range pub {
+		both[s], onlyH[s] = l, l
+		old, had := prev[s]
+		c, configured := calc[s]
+		if !had || !configured || !sameList(l, old) || sameList(l, c) {
+			continue
+		}
+		if thresholdSaysNoUpdate(old, c) {
+			j.staleH = append(j.staleH, s)
+			both[s] = c
+		} else if processed != nil && !processed[s] {
+			j.staleU = append(j.staleU, s)
+			both[s], onlyH[s] = c, c
+		}
+	}
+	j.both, j.onlyH = encResult(both), encResult(onlyH)
+	return j
+}
+
+// the step input with the nodes in the order the controller works on (listNodesFromCache: by name)
+func listedTokens(in *input) []int64 {
+	cp := *in
+	cp.nodes = append([]nodeT{}, in.nodes...)
+	sort.Slice(cp.nodes, func(a, b int) bool { return cp.nodes[a].name < cp.nodes[b].name })
+	return cp.tokens()
+}
+
+func emitJudged(j stepJudge, in []int64, law func(lsel int, lin []int64, sig string)) {
+	with := func(r []int64) []int64 { return append(append([]int64{}, in...), r...) }
+	if j.complete {
+		// every scheduler has a NodeShard: with the explained-stale shards replaced, the
+		// published state must be a full assignment in score order with exact counts
+		law(104, with(j.both), "")
+		law(106, with(j.both), "")
+	}
+	switch {
+	case len(j.staleH) == 0 && len(j.staleU) == 0:
+		law(110, j.pub, "")
+		law(111, with(j.pub), "")
+	case len(j.staleU) == 0:
+		law(110, j.both, "")
+		law(111, with(j.both), "")
+		law(110, j.pub, sigHysteresis)
+		law(111, with(j.pub), sigHysteresis)
+	default:
+		law(110, j.both, "")
+		law(111, with(j.both), "")
+		if len(j.staleH) > 0 {
+			law(110, j.onlyH, sigHysteresis)
+			law(111, with(j.onlyH), sigHysteresis)
+		}
+		law(110, j.pub, sigSingleShard)
+		law(111, with(j.pub), sigSingleShard)
+	}
 }
 
 var pubMemo sync.Map
@@ -102,14 +188,8 @@ func computePub(toks []int64, fallback bool) (o pubOutcome) {
 		if len(pub) != len(calc) {
 			panic(fmt.Sprintf("sync %d: %d NodeShards published for %d calculated assignments", k, len(pub), len(calc)))
 		}
-		expl := false
-		for s, c := range calc {
-			if old, had := prev[s]; had && !sameList(old, c) && thresholdSaysNoUpdate(old, c) {
-				expl = true
-			}
-		}
 		o.pubs = append(o.pubs, encResult(pub))
-		o.explained = append(o.explained, expl)
+		o.judge = append(o.judge, judgeStep(prev, pub, calc, nil))
 		prev = pub
 	}
 	return o
@@ -157,13 +237,7 @@ func pubLaws(toks []int64, fallback bool, law func(lsel int, lin []int64, sig st
 	}
 	h := decodeHist(toks)
 	for k := range h.steps {
-		sig := ""
-		if o.explained[k] {
-			sig = sigHysteresis
-		}
-		in := h.stepInput(k).tokens()
-		law(110, o.pubs[k], sig)                                      // the published NodeShards never overlap
-		law(111, append(append([]int64{}, in...), o.pubs[k]...), sig) // every published node passes the filters on the current metrics
+		emitJudged(o.judge[k], listedTokens(h.stepInput(k)), law)
 	}
 }
 
@@ -310,11 +384,9 @@ func emitPub(c genCase, emit func(id string, sel int, in []int64, kind string, n
 		sizes = append(sizes, len(st.nodes))
 	}
 	stale := 0
-	for _, e := range o.explained {
-		if e {
-			stale++
-		}
+	for _, j := range o.judge {
+		stale += len(j.staleH)
 	}
 	emit(c.id, c.sel, c.toks, c.kind, o.ok && len(c.hist.steps) >= 2,
-		map[string]any{"syncs": len(c.hist.steps), "nodes_per_sync": sizes, "schedulers": len(c.hist.specs), "syncs_with_stale_publication": stale})
+		map[string]any{"syncs": len(c.hist.steps), "nodes_per_sync": sizes, "schedulers": len(c.hist.specs), "shards_left_stale_by_threshold": stale})
 }
